@@ -9,8 +9,8 @@ RULE = ('random signature (pos/defaulted/*args/kw-only/**kw; function, class __i
         '(str, a/b, list, None, scoped get_configurable) x call shape; oracle = prefix-overlay model + CPython binder (twin). '
         'distinct = (shape, api, signature features, active depth, #applicable layers, call-shape classes, access path)')
 TIERS = {
-    'quick': {'workers': 8, 'cases': 1800, 'timeout': 600},
-    'thorough': {'workers': 16, 'cases': 25000, 'timeout': 3000},
+    'quick': {'workers': 8, 'cases': 1800, 'timeout': 600, 'exhaustive': False},
+    'thorough': {'workers': 16, 'cases': 25000, 'timeout': 3000, 'exhaustive': True},
 }
 SHAPES = ['fn', 'init', 'new', 'method']
 REQUIRED_BUCKETS = (['shape:' + s for s in SHAPES] + ['api:configurable', 'api:register', 'api:external'] +
@@ -291,3 +291,70 @@ LEVEL_TEXT = ('Runtime monitor with a reference model: every generated (signatur
 LEVEL_NOTE = 'Trusted: the 10-line overlay model and CPython argument binding (a twin function never shown to gin). Sampling, not enumeration.'
 TECHNIQUE = 'runtime reference-model monitor (prefix overlay + CPython binder) over generated signatures, scopes and call shapes'
 DESIGN_REF = 'DESIGN.md section 4, C01'
+
+
+def finish(ctx):
+  """Thorough: exhaustive small scope. Function f(p, q='dq', *, k='dk'): every subset of bindings over 4 scopes x 3 params (2^12), every active
+  scope in a 6-element set and every call shape in {omit, positional, keyword} per parameter where legal -> compared with the overlay model."""
+  if not ctx.params.get('exhaustive'):
+    return
+  import itertools
+  import gin
+  spec = {'shape': 'fn', 'api': 'external', 'name': 'c1exh_%s' % ctx.uid, 'module': 'c1x', 'pos': ['p'], 'dflt': [['q', 'dq']], 'varargs': False,
+          'kwonly': [['k', True, 'dk']], 'varkw': False}
+  p = probes.build(spec)
+  scopes = ['', 'a', 'a/b', 'b']
+  slots = [(sc, prm) for sc in scopes for prm in ('p', 'q', 'k')]
+  actives = [[], ['a'], ['a', 'b'], ['b'], ['a', 'c'], ['a', 'b', 'c']]
+  shapes = [(sp, sq, sk) for sp in ('omit', 'pos', 'kw') for sq in ('omit', 'pos', 'kw') for sk in ('omit', 'kw')
+            if not (sq == 'pos' and sp != 'pos')]
+  n = 0
+  for mask in range(1 << len(slots)):
+    n += 1
+    if n % ctx.nworkers != ctx.widx:
+      continue
+    gin.clear_config()
+    model = {}
+    for i, (sc, prm) in enumerate(slots):
+      if mask >> i & 1:
+        v = 'B|%s|%s' % (sc, prm)
+        gin.bind_parameter((sc, p.selector, prm), v)
+        model.setdefault((sc, p.selector), {})[prm] = v
+    for active in actives:
+      applicable = models.overlay(model, p.selector, active)
+      for (sp, sq, sk) in shapes:
+        P, K = [], {}
+        if sp == 'pos':
+          P.append(['c', 'p'])
+        elif sp == 'kw':
+          K['p'] = ['c', 'p']
+        if sq == 'pos':
+          P.append(['c', 'q'])
+        elif sq == 'kw':
+          K['q'] = ['c', 'q']
+        if sk == 'kw':
+          K['k'] = ['c', 'k']
+        inj = models.injected(applicable, ['p', 'q'], len(P), K)
+        try:
+          expect = p.twin(*P, **{**inj, **K})
+        except TypeError:
+          expect = None
+        mark = probes.RECORDER.mark()
+        exc = None
+        try:
+          with gin.config_scope(list(active)):
+            p.conf(*P, **K)
+        except TypeError as e:
+          exc = e
+        recs = probes.RECORDER.since(mark, p.pid)
+        ctx.count('exhaustive_calls')
+        if expect is None:
+          ctx.check(exc is not None, 'expected-TypeError', 'exhaustive: bindings %r active %r shape %r: binder raises, gin call did not' % (sorted(model), active, (sp, sq, sk)))
+          continue
+        got = recs[0].received if recs else None
+        ok = exc is None and got is not None and all((got[x] is expect[x]) if isinstance(expect[x], list) else got[x] == expect[x] for x in expect)
+        ctx.check(ok, 'reception-differs-from-model', 'exhaustive: bindings %r active %r shape %r: received %r (exc %r), model %r' %
+                  (sorted((k[0], sorted(v)) for k, v in model.items()), active, (sp, sq, sk), got, exc, expect))
+    ctx.fp('exh', mask)
+  probes.RECORDER.clear()
+  ctx.exhaustive = True
